@@ -223,6 +223,33 @@ CHECKS = {
 
 PENDING = {}
 
+# code -> spec direction added to the checks after the first round: appended to the technique / text of each property
+TRACE = {
+ "C02": ("TLC trace validation of recorded calls: sum-of-products bound (Trace_C02, Trace_Poly incl. f64) and the normalize / parallel-angle relations (Trace_Rel, exact dyadic arithmetic)",
+         "Recorded executions on random inputs are consumed by TLC: |got - exact| <= K u sum|terms| with the polynomials defined in the specification, and relational promises (unit length within 16u, parallel to the input; angle of parallel dense vectors finite and 0 or pi) decided with exact dyadic rationals."),
+ "C03": ("TLC trace validation on random real matrices: A*B, A*v, determinant (Leibniz) within K u sum|monomials| (Trace_Poly), entry-wise operations correctly rounded (Trace_Lanes / IeeeW)",
+         "Recorded products, determinants and transforms of random real matrices are judged by TLC against the defining polynomials evaluated with arbitrary-precision integers; entry-wise +, -, scalar * and / must be the correctly rounded IEEE result."),
+ "C04": ("TLC trace validation on random unit quaternions: Hamilton product and q v q* within K u sum|monomials| (Trace_Poly), component-wise operations correctly rounded (Trace_Lanes)",
+         "q*p and q*v for random unit quaternions (angles from 3e-5 to pi) are judged against the polynomial expansion of the Hamilton product / the sandwich q v q*."),
+ "C05": ("TLC trace validation: every from_quat / from_mat* pair on random rotations satisfies the quaternion-to-matrix polynomial (Trace_Rel quat_mat)",
+         "Random rotations (tiny, generic, nearly half-turn: all four extraction branches) are converted in both directions; TLC checks the quaternion-to-matrix polynomial entry by entry."),
+ "C06": ("TLC trace validation: random access histories against the register machine (Trace_C06 extends MC_C06), M*v and transform_point on random reals (Trace_Poly)",
+         "Random histories of constructors, entry writes and reads of every matrix / affine type are validated as actions of the MC_C06 machine; M*v = sum v[c] col(c) and transform_point = linear*p + translation are judged on random reals."),
+ "C09": ("TLC trace validation on random angles: the 24 Euler products from logged elementary rotations, axis-angle constructors and extractions (Trace_Rel euler, quat_mat)",
+         "from_euler of every variant must equal the product of the three logged elementary rotations in the order the variant's name spells (elementary rotations checked for their exact 0/1 pattern and right-hand sign); to_euler and to_axis_angle rebuild the rotation."),
+ "C10": ("replayed also in the glam-assert builds with scales 2^-10..2^10 and translations to 40; determinant = product of scales", ""),
+ "C11": ("TLC trace validation of the view and projection promises on random parameters, |dir x up| >= 2e-3, far/near <= 1e6 (Trace_Rel view, proj)",
+         "look_to/look_at on random eye/dir/up: rigid, eye to origin, dir to -+Z, up into the +Y half-plane with roll <= 2^9 u/|dir x up|; projections: zero pattern, clip w, near/far planes to the documented depths, fov/box planes to +-1, all decided with exact dyadic arithmetic."),
+ "C12": ("TLC trace validation on random inputs: move_towards, slerp at j/8 through Chebyshev polynomials of the cosines, rotate_towards within reach, parallel angles (Trace_Rel)",
+         "With c = <q0, r_1>: T_8(c) = |<q0,q1>|, <q0,r_j> = T_j(c), <+-q1,r_j> = T_(8-j)(c) decide that the angle from the start is j/8 of the total along the shorter arc, for arcs from 0.002 to 2.9 rad; move_towards returns the target once within reach and otherwise a step of length d towards it."),
+ "C17": ("TLC trace validation: random access histories of every vector type against the actions of Access.tla (Trace_C17)",
+         "Each logged constructor / write / read over random bit patterns is one action of the register machine with its arguments bound; the logged observation must be the register the action leaves."),
+}
+for _pid, (_t, _x) in TRACE.items():
+    CHECKS[_pid]["technique"] = CHECKS[_pid]["technique"] + "; plus " + _t
+    if _x:
+        CHECKS[_pid]["text"] = CHECKS[_pid]["text"] + " Code -> spec: " + _x
+
 def main():
     props = [json.loads(l) for l in open(os.path.join(core.VERIF, "properties.jsonl"))]
     checks = []
